@@ -30,11 +30,11 @@ def chain(pid, checks_q, checks_t, steps=100, shards_t=16, floor=0.3, **kw):
 PROPS = {
     "C01": chain("C01", 60, 1500, replay="C01", floor=0.5,
         technique="property-based testing: rapid state machine over the real app (signed txs), conservation invariant + per-transaction balance-delta law",
-        level_text="Generated transaction histories (all marketplace message types, several tenants/providers, zero to exhaustion-sized block gaps) are executed on the real application; after every transaction and block advance the escrow module balance is compared with a full scan of escrow records and every actor's bank delta with its own deposits/refunds/payouts.",
+        level_text="Generated transaction histories (all marketplace message types, several tenants/providers, zero to exhaustion-sized block gaps) are executed on the real application; after every transaction and block advance the escrow module balance is compared with a full scan of escrow records and every actor's bank delta with its own deposits/refunds/payouts. Every actor also holds a second denomination, deployments are sometimes topped up in it, and it is conserved and reconciled with the records in the same way.",
         level_note="Trusted: cosmos-sdk bank/auth modules, rapid; explores sampled histories only."),
     "C02": chain("C02_App", 60, 1200, floor=0.3,
         technique="property-based testing: exhaustive small-domain enumeration of the escrow keeper (all deposits/rates/gaps/trigger schedules) + rapid state machine over the real app; trigger-independent accrual invariants recomputed from recorded heights",
-        level_text="Keeper level: all small deposits, 1-3 payments with small rates and creation offsets, and all subsets of settlement trigger points/kinds are enumerated exhaustively against closed-form accrual invariants. App level: histories with several concurrent leases per deployment check exact accrual (never-overdrawn accounts), the never-more-than-rate-x-blocks bound, transferred = credited, balance+transferred = deposits, and the overdraft distribution validity predicate.",
+        level_text="Keeper level: all small deposits, 1-3 payments with small rates and creation offsets, and all subsets of settlement trigger points/kinds are enumerated exhaustively against closed-form accrual invariants. The enumeration also demands that a successful PaymentClose closes exactly the payment it names. App level (metered against the lifetime of the LEASE in the market store, not only the payment record): histories with several concurrent leases per deployment check exact accrual (never-overdrawn accounts), the never-more-than-rate-x-blocks bound, transferred = credited, balance+transferred = deposits, and the overdraft distribution validity predicate.",
         level_note="Trusted: cosmos-sdk Int arithmetic; the keeper-level ledger bank is a harness stub; enumeration bounds are stated in the evidence.",
         extra_units=[{"pkg": "x/escrow/keeper", "run": "^TestVerif_C02_Enum$", "checks": 1, "norapid": True, "shards": {Q: 1, T: 16}, "timeout": {Q: 600, T: 7200},
                       "env": {"VERIF_C02_SHARDS": {Q: 1, T: 16}}}]),
@@ -44,7 +44,7 @@ PROPS = {
         level_note="Trusted: as C01; lazy settlement means only recorded states are related to each other."),
     "C05": chain("C05", 60, 1500, replay="C05", floor=0.3,
         technique="property-based testing: rapid state machine over the real app, join of market/deployment stores with escrow store after every transaction",
-        level_text="After every transaction of generated histories the market/deployment records are joined with escrow records through the id mapping (lease<->payment, bid<->deposit account, deployment<->account) in both directions, plus per-record refund checks when a bid or deployment ends.",
+        level_text="After every transaction of generated histories the market/deployment records are joined with escrow records through the id mapping (lease<->payment, bid<->deposit account, deployment<->account) in both directions, plus per-record refund checks when a bid or deployment ends and 'no bid deposit stays in escrow once its deployment has ended'.",
         level_note="Trusted: as C01."),
     "C04": chain("C04", 60, 1500, replay="C04", floor=0.3,
         technique="property-based testing: rapid state machine over the real app, full scan of deployment and market stores after every transaction against the listed relations",
@@ -60,7 +60,7 @@ PROPS = {
         level_note="Trusted: Go map iteration randomisation as the source of divergence (detection probability per two-key map order >= 1-2^-7 per transaction); single process, single architecture."),
     "C08": chain("C08", 60, 1500, floor=0.3,
         technique="property-based testing: rapid state machine over the real app with near-miss construction; independent set-based admission predicate evaluated on the pre-state",
-        level_text="Bids are generated against orders with generated attribute requirements and all-of/any-of auditor lists, with providers and attestations that are exactly sufficient or broken in one place; every accepted bid / provider update must satisfy the independent predicate on the pre-state (only-if direction; converse recorded as statistic).",
+        level_text="Bids are generated against orders with generated attribute requirements and all-of/any-of auditor lists, with providers and attestations that are exactly sufficient or broken in one place; every accepted bid / provider update must satisfy the independent predicate on the pre-state (only-if direction; converse recorded as statistic). What an auditor has signed is modelled independently from the history of successful sign/delete messages (keys incl. capitalisation variants), not read back from the audit store; the minimum bid deposit is occasionally changed through the parameter subspace.",
         level_note="Trusted: as C01."),
     "C16": chain("C16", 60, 1500, replay="C16", floor=0.2,
         technique="property-based testing: rapid state machine over the real app; expected typed-event multiset derived from the record diff vs events parsed as the provider parses them; codec round trip in package events",
@@ -70,7 +70,7 @@ PROPS = {
     "C17": {
         "level": "exploration", "floor": 0.4,
         "technique": "property-based testing: rapid state machine over the real cert keeper and gRPC querier vs a map model; all iterators, filters and page sizes",
-        "level_text": "Generated create/revoke/get/list histories by three owners with serial numbers whose byte encodings are prefixes of each other (0, 1, 255, 256, 65535, 65536, 2^64, 2^158 ...) are checked against a map model: registration only by the named account and once per (owner, serial); valid->revoked only; entries never vanish; every keeper iterator and every gRPC listing (owner/state/serial filters, key- and offset-pagination, limits 1-5) returns without error or panic and contains each matching entry exactly once with its serial and state. Signer enforcement for certificate messages is exercised by the chain machine (C06).",
+        "level_text": "Generated create/revoke/get/list histories by three owners with serial numbers whose byte encodings are prefixes of each other (0, 1, 255, 256, 65535, 65536, 2^64, 2^158 ...) are checked against a map model: registration only by the named account and once per (owner, serial); valid->revoked only; entries never vanish; every keeper iterator and every gRPC listing (owner/state/serial filters, key- and offset-pagination, limits 1-5) returns without error or panic and contains each matching entry exactly once with its serial and state. Signer enforcement for certificate messages is exercised by the chain machine (C06). Every serial has two different certificates (fresh key pairs), so a second registration after a revocation is attempted with other certificate bytes as well.",
         "level_note": "Trusted: Go crypto/x509 for building certificates (serials it refuses to encode are outside the domain); explores sampled histories only; listings may contain non-matching extras without alarm (the statement only demands inclusion).",
         "assumptions": ["serial numbers are non-negative and encodable by crypto/x509 (<= 20 octets)"],
         "units": [{"pkg": "x/cert/keeper", "run": "^TestVerif_C17_Replay$", "checks": 1, "timeout": 300},
@@ -79,7 +79,7 @@ PROPS = {
     "C19": {
         "level": "exploration", "floor": 0.7,
         "technique": "property-based testing: boundary-value generator for MsgCreateDeployment vs an independent big.Int limits oracle (ValidateBasic + handler on a discarded branch), plus signed boundary transactions and a stored-state invariant in the chain machine",
-        "level_text": "Create-deployment messages are derived from a valid base by 1-3 edits that put a field on or just past each bound (group/unit counts 0/1/20/21, cpu/memory/storage at min-1/min/max/max+1, totals at the group maximum +-1 through several unit x count factorisations, replica counts 0/1/50/51/2^32-1, values >= 2^63, 2^64, negative, unset, nil sub-messages, price 0/1/max/max+1, wrong/mixed denominations, duplicate/empty names, version lengths 0/31/32/33/64, deposit min-1/min/wrong denom). Admitted => every clause of the statement holds (oracle over big.Int, limits read from GetValidationConfig and params); rejected => no effect; every stored deployment satisfies the clauses after every chain-machine transaction.",
+        "level_text": "Create-deployment messages are derived from a valid base by 1-3 edits that put a field on or just past each bound (group/unit counts 0/1/20/21, cpu/memory/storage at min-1/min/max/max+1, totals at the group maximum +-1 through several unit x count factorisations, replica counts 0/1/50/51/2^32-1, values >= 2^63, 2^64, negative, unset, nil sub-messages, price 0/1/max/max+1, wrong/mixed denominations, duplicate/empty names, version lengths 0/31/32/33/64, deposit min-1/min/wrong denom). Admitted => every clause of the statement holds (oracle over big.Int, limits read from GetValidationConfig and params); rejected => no effect; every stored deployment satisfies the clauses after every chain-machine transaction. In the chain machine the minimum deposit is also changed between transactions by writing the parameter subspace the way an executed governance proposal does; the oracle follows the current value.",
         "level_note": "Trusted: the oracle's reading of the limits table; a panic inside validation counts as rejection (as in baseapp.runTx).",
         "assumptions": ["network denomination uakt; limits as returned by GetValidationConfig() at run time"],
         "units": [
@@ -114,7 +114,7 @@ PROPS = {
     "C11": {
         "level": "exploration", "floor": 0.5,
         "technique": "property-based testing: generated lease ids x manifest groups x provider settings through the real builders and client.Deploy on fake clientsets; recorded API actions and stored objects checked; small semantic NetworkPolicy evaluator over probe flows",
-        "level_text": "For generated leases (extreme and textually near-colliding ids), manifest groups (1-4 services, env incl. AKASH_* overrides, TCP/UDP global/local exposes, resources at and between bounds) and settings (commit levels 0.5-8, static ingress hosts, network policies, runtime classes): every builder object and every action recorded by the fake clientsets during two Deploy rounds is confined to the lease's namespace; containers are unprivileged without escalation or service-account token; limits equal the lease and 0 < requests <= limits; namespace names are valid DNS labels and injective over the run; with policies enabled a NetworkPolicy evaluator admits ingress from outside only for the ingress controller or globally exposed ports and no non-DNS egress to RFC1918 ranges.",
+        "level_text": "For generated leases (extreme and textually near-colliding ids), manifest groups (1-4 services, env incl. AKASH_* overrides, TCP/UDP global/local exposes, resources at and between bounds) and settings (commit levels 0.5-8, static ingress hosts, network policies, runtime classes): every builder object and every action recorded by the fake clientsets during two Deploy rounds is confined to the lease's namespace; containers are unprivileged without escalation or service-account token; limits equal the lease and 0 < requests <= limits; namespace names are valid DNS labels and injective over the run; with policies enabled a NetworkPolicy evaluator admits ingress from outside only for the ingress controller or globally exposed ports and no non-DNS egress to RFC1918 ranges. A third of the cases injects one API error (drawn verb x resource) into the update round and retries the same manifest: whatever Deploy reports as success must leave objects matching the manifest it was given.",
         "level_note": "Trusted: client-go fake clientsets as the recording cluster; the harness's NetworkPolicy evaluator (standard additive allow semantics); 'private ranges' = RFC1918.",
         "assumptions": ["manifest groups are valid per ValidateManifest; a Deploy error is a refusal, not a violation"],
         "units": [{"pkg": "provider/cluster/kube", "run": "^TestVerif_C11$", "checks": {Q: 400, T: 8000}, "shards": {Q: 2, T: 16}, "timeout": {Q: 600, T: 3000}, "shrinktime": "30s"}],
@@ -122,7 +122,7 @@ PROPS = {
     "C09": {
         "level": "exploration", "floor": 0.3,
         "technique": "property-based testing: generated client-certificate classes against the real cert keeper/querier behind tls.Config.VerifyPeerCertificate, real TLS 1.3 handshakes against an httptest server built from the gateway's router and TLS config, generated request paths/parameters with recorded lease/deployment ids",
-        "level_text": "Certificates are built with crypto/x509 in 14 classes (genuine; forged copies of a valid entry's name+serial with a fresh key or another tenant's key; revoked; unknown; expired; not yet valid; without client-auth usage; two-element chains; non-address CN; differing issuer; re-issued by the registered key; expired twin of a valid entry; foreign CN) and registered through the real cert keeper; VerifyPeerCertificate must accept exactly the genuine class. Real handshakes confirm what a client observes, and for every generated path (numbers, overflowing numbers, other tenants' addresses, '..', encoded slashes, owner=/provider= parameters) every id recorded by the mocked cluster/manifest services carries the authenticated owner and this provider.",
+        "level_text": "Certificates are built with crypto/x509 in 14 classes (genuine; forged copies of a valid entry's name+serial with a fresh key or another tenant's key; revoked; unknown; expired; not yet valid; without client-auth usage; two-element chains; non-address CN; differing issuer; re-issued by the registered key; expired twin of a valid entry; foreign CN) and registered through the real cert keeper; VerifyPeerCertificate must accept exactly the genuine class. Real handshakes confirm what a client observes, and for every generated path (numbers, overflowing numbers, other tenants' addresses, '..', encoded slashes, owner=/provider= parameters) every id recorded by the mocked cluster/manifest services carries the authenticated owner and this provider. A third unit runs 2-4 verifications concurrently on ONE TLS configuration with every chain lookup gated by the harness (generated start/return order): each verdict must equal the sequential one (genuine accepted; forged copy, revoked, unknown rejected).",
         "level_note": "Trusted: Go crypto/tls and crypto/x509; wall clock only inside the code under test (validity windows are days away from the boundary); provider services are mockery mocks that record their arguments.",
         "assumptions": ["ECDSA P-256 certificates; TLS 1.3"],
         "units": [
@@ -135,7 +135,7 @@ PROPS = {
     "C12": {
         "level": "exploration", "floor": 0.25,
         "technique": "property-based testing: rapid state machine over a live inventoryService with a scripted cluster client; exact bin-packing oracle for grants; reference model for accounting; differential twin service that is never queried",
-        "level_text": "Generated histories of reserve / release / status / deployment events / node-snapshot changes (1-3 nodes, tight small-integer capacities, commit levels 0.5-3.7, 0-5 external ports) run against the real service: every grant must be packable (exact search over replica placements with the most lenient commit scaling) on the last reported availability and within the free ports; the number of reported reservations equals those outstanding; each reservation is reported with the same amounts every time; a release removes exactly one; and an identical twin service whose status is never queried must take the same reserve decisions.",
+        "level_text": "Generated histories of reserve / release / status / deployment events / node-snapshot changes (1-3 nodes, tight small-integer capacities, commit levels 0.5-3.7, 0-5 external ports) run against the real service: every grant must be packable (exact search over replica placements with the most lenient commit scaling) on the last reported availability and within the free ports; the number of reported reservations equals those outstanding; each reservation is reported with the same amounts every time; a release removes exactly one; and an identical twin service whose status is never queried must take the same reserve decisions. Orders come in pairs that differ only in the order sequence, deployment events may carry the sibling order id, and a group object may be handed to reserve again (retry / re-reservation).",
         "level_note": "Trusted: event-based synchronisation (a matching deployment event is followed by an observed Inventory() call before the history continues); the packing oracle only flags over-commitment (first-fit may legitimately refuse a packable set).",
         "assumptions": ["inventory poll period is one hour so refreshes happen only where the harness triggers them"],
         "units": [{"pkg": "provider/cluster", "run": "^TestVerif_C12_Replay$", "checks": 1, "timeout": 300},
@@ -144,7 +144,7 @@ PROPS = {
     "C13": {
         "level": "fault_enumeration", "floor": 0.4,
         "technique": "property-based testing with a harness-owned schedule: every asynchronous step of the real order monitor is gated; generated sequences of completions, single failures, chain events, bid timeout and shutdown; call-log oracle at termination",
-        "level_text": "A real order monitor (newOrderInternal) runs over a real bus while the harness gates group fetch, existing-bid query, auditor lookup, Reserve, pricing, create-bid and close-bid broadcasts and Unreserve. Generated schedules complete steps (ok or failing), publish order-closed / lease-created events for this and other orders/providers/groups, shut the parent down or let a bid timeout fire, in particular while steps are in flight, and finally complete whatever is still in flight. Over the call log: at most one create-bid, never above the group's maximum price, only after a successful reservation; unless the lease was won every successful reservation is followed by an Unreserve and an existing bid by a close-bid; the monitor always terminates.",
+        "level_text": "A real order monitor (newOrderInternal) runs over a real bus while the harness gates group fetch, existing-bid query, auditor lookup, Reserve, pricing, create-bid and close-bid broadcasts and Unreserve. Generated schedules complete steps (ok or failing), publish order-closed / lease-created events for this and other orders/providers/groups, shut the parent down or let a bid timeout fire, in particular while steps are in flight, and finally complete whatever is still in flight. Over the call log: at most one create-bid, never above the group's maximum price, only after a successful reservation; unless the lease was won every successful reservation is followed by an Unreserve and an existing bid by a close-bid; the monitor always terminates. When a bid timeout is configured, steps still in flight at termination may outlast it before they complete. A scripted replay unit re-runs the shrunk schedules of the two findings.",
         "level_note": "Trusted: when two channels are ready at once the Go runtime's select picks - both outcomes are legal schedules and the oracle is schedule independent; bounded waits (20 s) only detect wedging.",
         "assumptions": ["single failure injection per step; Unreserve/close-bid calls count as released/closed even if the call itself fails"],
         "units": [{"pkg": "provider/bidengine", "run": "^TestVerif_C13_Replay$", "checks": 1, "timeout": 300},
@@ -153,7 +153,7 @@ PROPS = {
     "C14": {
         "level": "fault_enumeration", "floor": 0.4,
         "technique": "property-based testing with a harness-owned schedule: real service loop + deployment managers + inventory over a real bus; Deploy/TeardownLease gated, hostname-reservation reply held by the harness; bus barrier for acknowledgements; call-log oracle",
-        "level_text": "Generated schedules over {manifest received (version k), lease closed, hostname reply ok/error, finish the running cluster operation ok/error, shutdown} of length <= 10 drive the real cluster service. A barrier event that travels the same bus acknowledges that the service loop (and, through its synchronous hand-off, the manager) has processed each stimulus. Over the call log: cluster operations of the lease never overlap; no Deploy starts after the lease-closed signal was accepted; after an accepted close (without shutdown) teardown starts after the last deploy finished, the reservation disappears from the inventory and the hostnames become reservable by another deployment; without close/failure/shutdown the last deploy carries the most recently received manifest.",
+        "level_text": "Generated schedules over {manifest received (version k), lease closed, hostname reply ok/error, finish the running cluster operation ok/error, shutdown} of length <= 10 drive the real cluster service. A barrier event that travels the same bus acknowledges that the service loop (and, through its synchronous hand-off, the manager) has processed each stimulus. Over the call log: cluster operations of the lease never overlap; no Deploy starts after the lease-closed signal was accepted; after an accepted close (without shutdown) teardown starts after the last deploy finished, the reservation disappears from the inventory and the hostnames become reservable by another deployment; without close/failure/shutdown the last deploy carries the most recently received manifest. Manifest versions name different hostname sets (including one held by another deployment); at the end nothing may be reserved for the lease's deployment and the foreign hostname must still belong to its holder.",
         "level_note": "Trusted: the barrier (bus FIFO + synchronous manager hand-off); bounded waits of 20 s only detect wedging; teardown errors are limited to two attempts (the code retries with back-off).",
         "assumptions": ["one lease per schedule; the deployment monitor's first health check (>= 4 s) lies beyond the duration of a case"],
         "units": [{"pkg": "provider/cluster", "run": "^TestVerif_C14$", "checks": {Q: 120, T: 2500}, "shards": {Q: 4, T: 16}, "race": {Q: False, T: True}, "timeout": {Q: 900, T: 3000}, "shrinktime": "40s"}],
